@@ -14,6 +14,11 @@
   are used by the trace-replay driver, so the correspondence check exercises exactly the
   definitions the theorems are about.
 
+  Contexts: every job carries its own context (`Enqueue(ctx, job)`; `Cfg.ctxOf`), `Wait` has its
+  own (`Cfg.waitCtx`); contexts are identified by numbers, `State.doneCtx` is the set of the
+  cancelled ones.  A worker checks the context of the job it received, `Wait` checks its own.
+  With the defaults every job and `Wait` use context 0 (what cff-generated code does).
+
   Core Lean only (this module is linked into the native driver).
 -/
 
@@ -62,9 +67,21 @@ structure Cfg where
   /-- `deps[j]` = the handles job `j` names as dependencies (earlier jobs; duplicates allowed). -/
   deps : List (List Nat)
   wiring : Wiring := .std
+  /-- `ctxOf[j]` = the id of the context job `j` is enqueued with (`Enqueue(ctx, job)`);
+      jobs beyond the list use context 0. -/
+  ctxOf : List Nat := []
+  /-- the id of the context `Wait` is called with. -/
+  waitCtx : Nat := 0
   deriving Repr
 
 def Cfg.depsOf (c : Cfg) (j : Nat) : List Nat := c.deps.getD j []
+
+/-- The context job `j` was enqueued with. -/
+def Cfg.ctxOfJob (c : Cfg) (j : Nat) : Nat := c.ctxOf.getD j 0
+
+/-- The (finitely many) contexts the configuration mentions: Wait's, the default one, and
+    every job's.  Only these can be cancelled (cancelling any other context is unobservable). -/
+def Cfg.ctxs (c : Cfg) : List Nat := c.waitCtx :: 0 :: c.ctxOf
 
 def Cfg.capDone (c : Cfg) : Nat := c.wiring.capDone.getD c.N
 
@@ -271,7 +288,7 @@ inductive Ev where
   | resultSeen (j : Nat) (r : Res)
   | wroteInvalid (k : Nat)            -- loop wrote `invalid` of job k (C12)
   | report (st : Report)
-  | cancelled
+  | cancelled (x : Nat)               -- context `x` became done
   | loopExit
   | waitReturned (r : List Res)
   deriving DecidableEq, Repr
@@ -288,9 +305,19 @@ structure State where
   loop   : LoopSt := {}
   ws     : List W := []
   donec  : List (Nat × Res) := []
-  cancelled : Bool := false
+  doneCtx : List Nat := []          -- the contexts that are done (cancelled)
   log    : List Ev := []            -- newest last
   deriving DecidableEq, Repr, Inhabited
+
+/-- `x` is one of the done contexts `d`. -/
+def ctxDone (d : List Nat) (x : Nat) : Bool := d.contains x
+
+/-- `ctx.Err() != nil` for context `x`.  (Reducible notation for `ctxDone s.doneCtx x`, so that
+    it is transparent to updates of the other fields.) -/
+@[reducible] def State.cancelledCtx (s : State) (x : Nat) : Bool := ctxDone s.doneCtx x
+
+/-- Context `x` becomes done. -/
+def State.cancelCtx (s : State) (x : Nat) : State := { s with doneCtx := x :: s.doneCtx }
 
 def init (c : Cfg) : State := { ws := List.replicate c.N .idle }
 
@@ -300,7 +327,7 @@ inductive Act where
   | loopDrain | loopClose
   | workerDecide (w : Nat) | workerEnd (w : Nat) (o : Outcome) (cancel : Bool)
   | workerPost (w : Nat) | workerDiePost (w : Nat) | workerExit (w : Nat)
-  | cancel
+  | cancel (x : Nat)
   deriving DecidableEq, Repr
 
 def outcomeRes : Outcome → Res
@@ -328,13 +355,13 @@ def step (c : Cfg) (s : State) : Act → Option State
       some { s with caller := { s.caller with closed := true } }
     else none
   | .callerRetCtx =>
-    if s.caller.closed && s.caller.ret.isNone && s.cancelled && c.wiring.waitSelectsCtx then
+    if s.caller.closed && s.caller.ret.isNone && s.cancelledCtx c.waitCtx && c.wiring.waitSelectsCtx then
       some (addLog { s with caller := { s.caller with ret := some [.ctxErr] } }
             (.waitReturned [.ctxErr]))
     else none
   | .callerRetFin =>
     if s.caller.closed && s.caller.ret.isNone && s.loop.phase == .exited then
-      let r := if s.loop.err.isEmpty then (if s.cancelled then [.ctxErr] else []) else s.loop.err
+      let r := if s.loop.err.isEmpty then (if s.cancelledCtx c.waitCtx then [.ctxErr] else []) else s.loop.err
       some (addLog { s with caller := { s.caller with ret := some r } } (.waitReturned r))
     else none
   | .loopEnq =>
@@ -376,7 +403,7 @@ def step (c : Cfg) (s : State) : Act → Option State
   | .workerDecide w =>
     match s.ws[w]? with
     | some (.holding j) =>
-      if s.cancelled && c.wiring.workerChecksCtx then
+      if s.cancelledCtx (c.ctxOfJob j) && c.wiring.workerChecksCtx then
         some (addLog (setW s w (.posting j .ctxErr)) (.skipped j .ctx))
       else if (Loop.job s.loop j).invalid && c.wiring.workerChecksInvalid then
         some (addLog (setW s w (.posting j .invalid)) (.skipped j .invalid))
@@ -387,7 +414,8 @@ def step (c : Cfg) (s : State) : Act → Option State
     match s.ws[w]? with
     | some (.running j) =>
       let s := addLog s (.ended j o)
-      let s := if cancel && !s.cancelled then addLog { s with cancelled := true } .cancelled else s
+      let s := if cancel && !s.cancelledCtx (c.ctxOfJob j)
+               then addLog (s.cancelCtx (c.ctxOfJob j)) (.cancelled (c.ctxOfJob j)) else s
       match o with
       | .goexit => some (setW s w (.dying j))
       | o => some (setW s w (.posting j (outcomeRes o)))
@@ -411,8 +439,8 @@ def step (c : Cfg) (s : State) : Act → Option State
     match s.ws[w]? with
     | some .idle => if s.loop.phase == .exited then some (setW s w .exited) else none
     | _ => none
-  | .cancel =>
-    if !s.cancelled then some (addLog { s with cancelled := true } .cancelled) else none
+  | .cancel x =>
+    if !s.cancelledCtx x && c.ctxs.contains x then some (addLog (s.cancelCtx x) (.cancelled x)) else none
 
 def run (c : Cfg) : State → List Act → Option State
   | s, [] => some s
